@@ -230,3 +230,31 @@ def no_shared_writes(ctx: Ctx, rule: str, shorts=None):
                      "the operand is a cached value of another measure: after this read that measure reports the modified values")
     if not bad:
         ctx.held(rule, "this property's measure classes: every write site", f"{n} write sites, all to objects created by the writing function", "")
+
+
+ORDERING_PROPS = ("C05", "C07", "C08", "C09")
+
+
+def generic_lints(ctx: Ctx, rule: str = "lint"):
+    """Constructs that are wrong wherever they stand (cubeverif/lints.py), reported for the code that computes THIS
+    property's quantities (cubeverif/scope.py)."""
+    from .. import lints as L
+    from ..loader import AnalysisError
+    from ..scope import in_scope
+
+    if L.self_check() != (6, 0):
+        raise AnalysisError(f"generic lints: the positive control is no longer recognised {L.self_check()}")
+    n, hits = 0, []
+    for m in ctx.repo.all_members():
+        short = m.cls.module.path.split("cr/cube/")[-1]
+        if not in_scope(ctx.prop, short, m.cls.name, m.name):
+            continue
+        n += 1
+        for kind, text, why in L.scan_function(m.node, m.name, ctx.prop in ORDERING_PROPS):
+            hits.append((f"{short}::{m.cls.name}.{m.name} [{text}]", kind, why))
+    ctx.count("functions in this property's scope (generic lints)", n)
+    ctx.require_min("functions in this property's scope (generic lints)", 3)
+    for where, kind, why in hits:
+        ctx.violated(f"{rule}.{kind}", where, kind, "see cubeverif/lints.py", why)
+    if not hits:
+        ctx.held(rule, "this property's code: floor division, int casts, identity with literals, unordered sets", f"{n} functions scanned, none found", "", "positive control: 6 of 6 recognised")
